@@ -15,8 +15,8 @@ Definition fs_engine (S : N) (F : flow) (w : wto) (delay desc : nat) (use_asm : 
   run N (fs_ops S) (fun n a => image (f_rel F n) a) (f_preds F) (nest_of w) (f_entry F)
       delay desc use_asm (f_asm F) (f_init F) fuel w.
 
-(* the side conditions of theorem fs_engine_exact, as an executable test *)
+(* the side condition of theorem fs_engine_exact, as an executable test (the start block may
+   be anywhere in w, so nothing is required of w any more; the parameter is kept for the driver) *)
 Definition fs_certified (S : N) (F : flow) (w : wto) (use_asm : bool) (e : est N) : bool :=
-  entry_ok (f_entry F) w &&
   inductive_ok N (fs_ops S) (fun n a => image (f_rel F n) a) (f_preds F) (f_entry F) use_asm (f_asm F)
                (f_init F) (seq 0 (f_blocks F)) (e_pre N e) (e_post N e).
